@@ -195,7 +195,20 @@ def record_eml(seed):
     except Exception as e:  # noqa: BLE001 - C15 reports it; here only the registry is judged
         ok = False
     tr["events"].append({"op": "discarding", "args": [1, "prune"], "ok": ok, "ret": 0, "post": slim(w.pi(all_fields()))})
-    # references: turn some responsible parties into references to a defined one
+    # references: besides the fixture's own, one reference to a definition WITHOUT children (nothing to copy: the
+    # references node must leave the registry all the same)
+    ds = root.find_child("dataset")
+    if ds is not None and rnd.random() < 0.7:
+        empty_def = Node("associatedParty")
+        empty_def.add_attribute("id", "empty-def-1")
+        holder = Node("associatedParty")
+        ref = Node("references", content="empty-def-1")
+        holder.add_child(ref)
+        for x in (empty_def, holder):
+            ds.add_child(x)
+        for x in (empty_def, holder, ref):
+            w.track(x)
+        tr["events"].append({"op": "resync", "args": [], "ok": True, "ret": 0, "post": slim(w.pi(all_fields()))})
     try:
         references.expand(root)
         ok = True
